@@ -505,7 +505,9 @@ GuardsRetClose(st, e) ==
     {G("close_reports_errors", {"C12"}, c.op # "cancel" => (("disposal" \in err) <=> (c.nclerr > 0)), NONE),
      G("close_no_other_error", {"C12"}, err \subseteq {"disposal"}, NONE),
      G("second_close_noop", {"C12"}, ~c.wasOpen => (err = {} /\ c.ncl = 0), NONE),
-     G("close_closes_all_owned", {"C10"}, AllClosed(st, MustClose(st, sub)), NONE)}
+     G("close_closes_all_owned", {"C10"}, AllClosed(st, MustClose(st, sub)), NONE),
+     \* cancelling the context given to CreateScope is visible on the scope's context when cancel() returns
+     G("cancel_reaches_scope_ctx", {"C18"}, c.op = "cancel" => e.ctxok, NONE)}
 
 GuardsRet(st, e) ==
     {G("no_panic", {"C15"}, ~e.panic, NONE)} \cup
